@@ -17,6 +17,7 @@ import (
 	"os"
 	"os/exec"
 	"path/filepath"
+	"strconv"
 	"strings"
 	"sync"
 	"sync/atomic"
@@ -34,7 +35,6 @@ type outcome struct {
 	CbInv    []int     `json:"cb_inv"`
 	Anomaly  []string  `json:"anomalies,omitempty"`
 	Verdicts []verdict `json:"verdicts,omitempty"`
-	invVar   []int
 }
 
 // stuckWorlds counts the worlds in which a watchdog expired (the library did not
@@ -50,16 +50,12 @@ func drive(c Case, next func(w *world, step int) (Op, bool)) outcome {
 		return outcome{Case: c, Anomaly: []string{"setup: " + err.Error()}}
 	}
 	var applied []Op
-	var invVar []int
 	do := func(o Op) {
 		if w.serveDead() {
 			return
 		}
 		if w.apply(o) {
 			applied = append(applied, o)
-			if o.Op == "invite" {
-				invVar = append(invVar, o.V)
-			}
 		}
 	}
 	for _, o := range c.Ops {
@@ -78,7 +74,8 @@ func drive(c Case, next func(w *world, step int) (Op, bool)) outcome {
 	if w.stuck {
 		stuckWorlds.Add(1)
 	}
-	if w.serveDead() {
+	died := w.died
+	if w.serveDead() && !died {
 		w.anom("the serve loop ended: a handler returned an error or the stream broke")
 	}
 	// returned values beyond their class
@@ -97,10 +94,10 @@ func drive(c Case, next func(w *world, step int) (Op, bool)) outcome {
 		}
 	}
 	w.mu.Lock()
-	o := outcome{Case: Case{Name: c.Name, Ops: applied}, Trace: w.trace, CbPres: append([]int{}, w.cbPres...), CbInv: append([]int{}, w.cbInv...), Anomaly: w.anomaly, invVar: invVar}
+	o := outcome{Case: Case{Name: c.Name, Ops: applied}, Trace: w.trace, CbPres: append([]int{}, w.cbPres...), CbInv: append([]int{}, w.cbInv...), Anomaly: w.anomaly}
 	w.mu.Unlock()
 	w.close()
-	o.Verdicts = runOracle(o.Trace, o.CbPres, o.CbInv, invVar)
+	o.Verdicts = runOracle(o.Trace, o.CbPres, o.CbInv, died)
 	if len(o.Verdicts) == 0 {
 		for _, a := range o.Anomaly {
 			key := "C18/driver/anomaly"
@@ -159,8 +156,24 @@ func coqLabel(l Label) (string, bool) {
 			return "LDeliver (PresUnavail " + n(l.A) + ")", true
 		case "err":
 			return "LDeliver (ErrReply " + n(l.K) + ")", true
-		case "invite":
-			return "LDeliver (Invite " + n(l.K) + ")", true
+		case "bad":
+			return "LDeliver (PresBad " + n(l.A) + ")", true
+		case "msg":
+			var cs []string
+			for _, c := range l.C {
+				switch {
+				case strings.HasPrefix(c, "i"):
+					k, _ := strconv.Atoi(c[1:])
+					cs = append(cs, "CInvite "+n(k))
+				case c == "u":
+					cs = append(cs, "CUserX")
+				case c == "f":
+					cs = append(cs, "CForeignX")
+				default:
+					cs = append(cs, "COther")
+				}
+			}
+			return "LDeliver (Msg [" + strings.Join(cs, "; ") + "])", true
 		default:
 			return "LDeliver Other", true
 		}
@@ -201,7 +214,33 @@ func corpus() []Case {
 	q := func(a int) Op { return Op{Op: "query", A: a} }
 	lv := func(a int) Op { return Op{Op: "leave", A: a} }
 	cn := func(k int) Op { return Op{Op: "cancel", K: k} }
+	avp := func(a, v, p int) Op { return Op{Op: "avail", A: a, V: v, P: p} }
+	unp := func(a, v, p int) Op { return Op{Op: "unavail", A: a, V: v, P: p} }
+	msg := func(c string, v int) Op { return Op{Op: "msg", C: c, V: v} }
+	ot := func(v int) Op { return Op{Op: "other", V: v} }
+	// presences with every payload shape from addresses that were never joined,
+	// then a join that must still work
+	var strangers, oddJoined []Op
+	for p := 0; p < len(payloads); p++ {
+		strangers = append(strangers, avp(3, p%8, p), unp(3, (p+3)%8, p), avp(1, 2, p))
+		if !badPayload(p) {
+			oddJoined = append(oddJoined, avp(0, p%8, p))
+		}
+	}
+	strangers = append(strangers, ot(10), ot(11), ot(12), j(0), p(0), wt(0), avp(3, 2, 9), av(0, 2), q(0), unp(3, 2, 12), lv(0), wt(1), un(0, 2), q(0))
 	return []Case{
+		{"strangers-any-payload-then-join", strangers},
+		{"joined-odd-payloads", append(append([]Op{j(0), p(0), wt(0), avp(0, 2, 1), q(0)}, oddJoined...), lv(0), wt(1), unp(0, 0, 4), q(0))},
+		{"self-presence-odd-payloads", []Op{j(0), p(0), wt(0), avp(0, 0, 4), q(0), j(1), p(1), wt(1), avp(1, 4, 2), q(1), j(2), p(2), wt(2), avp(2, 1, 7), q(2), lv(1), wt(3), unp(1, 1, 1), q(1)}},
+		{"presence-with-foreign-x", []Op{avp(3, 24, 0), j(0), p(0), wt(0), avp(0, 10, 0), q(0), avp(0, 26, 3), avp(0, 16, 1), lv(0), wt(1), unp(0, 27, 0), q(0), avp(0, 8, 0)}},
+		{"joined-bad-payload", []Op{j(0), p(0), wt(0), av(0, 2), q(0), avp(0, 2, 8)}},
+		{"pending-join-bad-payload", []Op{j(0), p(0), wt(0), avp(0, 2, 9)}},
+		{"leaving-bad-payload", []Op{j(0), p(0), wt(0), av(0, 2), lv(0), wt(1), unp(0, 2, 13)}},
+		{"left-room-bad-payload", []Op{j(0), p(0), wt(0), av(0, 2), lv(0), wt(1), un(0, 2), avp(0, 2, 8), unp(0, 0, 10), q(0), j(1), p(2), wt(2), av(1, 2), q(1)}},
+		{"failed-join-bad-payload", []Op{j(0), p(0), wt(0), er(0, 0), q(0), avp(0, 2, 11)}},
+		{"invites-with-extra-children", []Op{msg("ic", 0), msg("ci", 1), msg("yic", 2), msg("bift", 0), msg("im", 8), msg("tcyfmib", 3), msg("qi", 0), msg("iq", 1), msg("q", 0), msg("c", 0), msg("cy", 1), msg("", 0), msg("b", 0)}},
+		{"declines-and-status", []Op{msg("i", 0), msg("d", 0), msg("s", 1), msg("dc", 0), msg("cs", 0), msg("i", 2), msg("bdt", 0)}},
+		{"several-muc-user-payloads", []Op{msg("id", 0), msg("si", 0), msg("ii", 0), msg("dis", 1), msg("ds", 0), msg("icd", 0)}},
 		{"join-then-joined", []Op{j(0), p(0), wt(0), av(0, 3), q(0)}},
 		{"join-leave", []Op{j(0), p(0), wt(0), av(0, 3), q(0), lv(0), wt(1), un(0, 3), q(0)}},
 		{"join-error", []Op{j(0), p(0), wt(0), er(0, 0), q(0)}},
@@ -279,13 +318,43 @@ func genOp(r *hx.Rand, w *world) Op {
 		w  int
 		op func() Op
 	}
+	// payload shape of a presence from a: mostly the standard one; undecodable
+	// ones mostly where the address is not managed (elsewhere they end the case)
+	shape := func(a int) int {
+		switch x := r.Intn(100); {
+		case x < 60:
+			return 0
+		case x < 85:
+			return 1 + r.Intn(nGood-1)
+		case !w.chans[a].entry || x >= 97:
+			return nGood + r.Intn(len(payloads)-nGood)
+		default:
+			return r.Intn(nGood)
+		}
+	}
+	msgs := []string{"i", "ic", "ci", "bi", "yic", "ift", "im", "d", "s", "dc", "c", "cy", "b", "", "tcfi", "iq", "qic", "id", "si", "ii", "dis"}
 	cs := []choice{
 		{10, func() Op { return Op{Op: "join", A: []int{0, 0, 1, 2}[r.Intn(4)]} }},
 		{3, func() Op { return Op{Op: "invite", V: r.Intn(16)} }},
+		{4, func() Op {
+			c := msgs[r.Intn(len(msgs)-4)]
+			if r.Chance(1, 8) {
+				c = msgs[r.Intn(len(msgs))]
+			}
+			return Op{Op: "msg", C: c, V: r.Intn(16)}
+		}},
+		{4, func() Op {
+			// a room that was never joined, any payload
+			op := "avail"
+			if r.Bool() {
+				op = "unavail"
+			}
+			return Op{Op: op, A: 3, V: r.Intn(32), P: r.Intn(len(payloads))}
+		}},
 		{3, func() Op { return Op{Op: "other", V: r.Intn(len(others))} }},
 		{8, func() Op { return Op{Op: "query", A: anyAddr()} }},
-		{5, func() Op { return Op{Op: "avail", A: anyAddr(), V: r.Intn(8)} }},
-		{4, func() Op { return Op{Op: "unavail", A: anyAddr(), V: r.Intn(8)} }},
+		{5, func() Op { a := anyAddr(); return Op{Op: "avail", A: a, V: r.Intn(32), P: shape(a)} }},
+		{4, func() Op { a := anyAddr(); return Op{Op: "unavail", A: a, V: r.Intn(32), P: shape(a)} }},
 		{2, func() Op { return Op{Op: "leave", A: anyAddr()} }},
 	}
 	if len(start) > 0 {
@@ -299,14 +368,14 @@ func genOp(r *hx.Rand, w *world) Op {
 		cs = append(cs, choice{4, func() Op { return Op{Op: "cancel", K: pick(pend)} }})
 	}
 	if len(pendJoinAddr) > 0 {
-		cs = append(cs, choice{14, func() Op { return Op{Op: "avail", A: pick(pendJoinAddr), V: r.Intn(8)} }})
+		cs = append(cs, choice{14, func() Op { a := pick(pendJoinAddr); return Op{Op: "avail", A: a, V: r.Intn(32), P: shape(a)} }})
 	}
 	if len(pendLeaveAddr) > 0 {
-		cs = append(cs, choice{12, func() Op { return Op{Op: "unavail", A: pick(pendLeaveAddr), V: r.Intn(8)} }})
+		cs = append(cs, choice{12, func() Op { a := pick(pendLeaveAddr); return Op{Op: "unavail", A: a, V: r.Intn(32), P: shape(a)} }})
 	}
 	if len(member) > 0 {
 		cs = append(cs, choice{9, func() Op { return Op{Op: "leave", A: pick(member)} }},
-			choice{3, func() Op { return Op{Op: "unavail", A: pick(member), V: r.Intn(8)} }})
+			choice{3, func() Op { a := pick(member); return Op{Op: "unavail", A: a, V: r.Intn(32), P: shape(a)} }})
 	}
 	if len(withReq) > 0 {
 		cs = append(cs, choice{6, func() Op {
